@@ -429,6 +429,8 @@ def run(tier, seed):
                 sel = hs if j == 0 else rng.sample(hs, min(len(hs), 10))
                 for h in sel:
                     slices = [(rng.choice([None, 0, 1, 2]), rng.choice([None, 1, 3, cnt, cnt + 2]), rng.choice([None, 1, 2])) for _ in range(2)]
+                    slices += [(rng.choice([None, -1, -2, -cnt - 1, cnt - 1, 1]), rng.choice([None, -1, -2, 0, -cnt - 2]), rng.choice([None, -1, -2, 1, 3])) for _ in range(2)]
+                    slices += [(None, None, -1), (-2, None, None), (None, -1, None)]
                     acc.check('lazyarray', lazy, eager=eager, data=d, start=start, kw=kw, history=h, slices=slices)
                     cases.append(dict(src=lazy, op='lazy', kw=kw, data=d, start=start, history=h))
                 cases.append(dict(src=lazy, op='parse', kw=kw, data=d, start=start))
